@@ -362,7 +362,8 @@ def facet_scale(cellobj, X, facet):
     return math.sqrt(abs(np.linalg.det(FJ.T @ FJ)))
 
 
-def reference_tensor(form, itype, sid, cells, wvals, cvals, entity, scalar=float, forced_points=None, diagonal=False):
+def reference_tensor(form, itype, sid, cells, wvals, cvals, entity, scalar=float, forced_points=None, diagonal=False,
+                     match_physical=False):
     """cells: [Cell] (two for interior facets); wvals: {coefficient: [dofs per side]};
     cvals: {constant: ndarray}; entity: local entity index per side.  Returns A as nested
     numpy array of shape (dims of arguments, doubled for interior facets)."""
@@ -391,6 +392,12 @@ def reference_tensor(form, itype, sid, cells, wvals, cvals, entity, scalar=float
                 else:
                     o, ax = facet_embedding(cn, entity[s])
                     Xs.append(o + ax @ pts[q])
+            if match_physical and nside == 2 and itype == "interior_facet":
+                # the '-' cell may be numbered differently: its reference point is the pre-image of the
+                # physical point seen from '+' (affine '-' geometry: X = K (x - x(0)))
+                x_phys = cells[0].at(Xs[0])[0]
+                x0, _, K1, _, _ = cells[1].at(np.zeros(cells[1].tdim))
+                Xs[1] = K1 @ (x_phys - x0)
             if itype == "cell":
                 scale = cells[0].at(Xs[0])[4]
             elif itype == "vertex":
